@@ -305,6 +305,7 @@ def run(case):
                    'scripts': case['scripts'], 'sched': case['sched'],
                    'outcomes': outcomes, 'yield_points': s.steps},
         'digest': w.sim.digest(outcomes, w.viol, s.trace),
+        'schedule': list(s.trace),
     }
 
 
